@@ -56,6 +56,16 @@ W_RAISE = clause(UW, 'raises:callee_failures_fall_back', ['C07', 'C06', 'C15'], 
 W_ELEM = clause(UW, 'post:each_call_forwards_with_its_own_shape', ['C06', 'C05'], 'P',
                 'one element per call that uses a star parameter, = forwards(sig, forged(callee, args, kwargs), number of positionals '
                 '(-1 through functools.partial), *keyword names, the use/hide flags OF THAT CALL, partial=...); others skipped')
+G_PLAIN = clause(UG, 'post:fallback_is_plain_retrieval', ['C06', 'C05', 'C07'], 'P',
+                 'without a forger / hint / discovery result the value returned is the one signatures.signature(obj) returns')
+A_MERGE = clause(UA_, 'post:merge_over_all_elements', ['C06', 'C05'], 'P', 'the result is merge(*elements) over every element forward_signatures yields, in order')
+US_ = 'sphinxext.process_signature'
+S_TOTAL = clause(US_, 'raises:nothing_for_documentable', ['C07'], 'P',
+                 'whatever retrieval and annotation evaluation raise, the hook returns (given a name that can be imported)')
+S_STR = clause(US_, 'post:two_strings_or_inputs', ['C07'], 'P')
+UT = '_specifiers.forged_signature (termination)'
+T_REC = clause(UT, 'rt:cyclic_forwarding_graph_terminates', ['C07'], 'R',
+               'runtime contract on two concrete programs: a function forwarding to itself, and a two-function cycle')
 D_GUARD = clause(UD, 'frame:guard_restored', ['C16'], 'P')
 D_ATTR = clause(UD, 'raises:AttributeError_iff_computing', ['C16', 'C13'], 'P')
 
@@ -111,6 +121,7 @@ def make_runner(mode, shape=DEF_SHAPES[0], node='FunctionDef', kind='function', 
     def run(ctx, r):
         env['r'] = r
         env.pop('forger_returned', None)
+        env.pop('af_ast_returned', None)
         objs = []
         env['objs'] = objs
         env['ast_pre'] = []
@@ -148,7 +159,9 @@ def make_runner(mode, shape=DEF_SHAPES[0], node='FunctionDef', kind='function', 
             env['ast_pre'].append(func_ast)
             if ctx.decide(ctx.fresh('af_ast_unknown', z3.BoolSort())):
                 raise PyExc(UF_cls, ())
-            return sig
+            res = I.call(I.getattr_(sig, 'replace'), [], [])       # 'some upgraded signature' (a fresh object)
+            env.setdefault('af_ast_returned', []).append(res)
+            return res
 
         if mode in ('af_function', 'forged'):
             I.call_hooks['_autoforwards:autoforwards_ast'] = af_ast_summary
@@ -173,7 +186,8 @@ def make_runner(mode, shape=DEF_SHAPES[0], node='FunctionDef', kind='function', 
             def hint_behaviour(interp_, args, kwpairs):
                 if ctx.decide(z3.Bool('hint_returns_none')):
                     return None
-                return (env['obj'], SymNode(node), env['hint_sig'])
+                # contract of a hint (modifiers._sigtools__autoforwards_hint): None or (function, its def node, signature)
+                return (env['obj'], SymNode('FunctionDef'), env['hint_sig'])
             hint = SymCallable('hint', hint_behaviour)
             wrapped = new_obj('wrapped_target')
             common = lambda n: {'__signature__': slot(n, 'signature', Opaque('sig value')), '_sigtools__forger': slot(n, 'forger', forger),
@@ -187,6 +201,12 @@ def make_runner(mode, shape=DEF_SHAPES[0], node='FunctionDef', kind='function', 
                 call.defaults['__self__'] = obj
                 call.defaults['__func__'] = new_obj('obj_call_func', 'function', slots=common('obj_call_func'), defaults={'__call__': MethodWrapper()})
             env['obj'] = obj
+            env['plain_results'] = []
+
+            def plain_boundary(interp_, clo, frame, oc):
+                if oc[0] == 'return':
+                    env['plain_results'].append(oc[1])
+            I.boundary_hooks['_signatures:signature'] = plain_boundary
             env['hint_sig'] = mk_sig(I, ctx, 'h', (0, 1, 0, 0, 0), tracked=False, annotations=False).sig
             for o in objs:
                 o.snapshot()
@@ -202,7 +222,9 @@ def make_runner(mode, shape=DEF_SHAPES[0], node='FunctionDef', kind='function', 
                     n = 0
                     while n < 2 and ctx.decide(ctx.fresh('fs_more', z3.BoolSort())):
                         n += 1
-                        yield up
+                        e = I.call(I.getattr_(up, 'replace'), [], [])
+                        env['yield_log'].append(e)
+                        yield e
                     if ctx.decide(ctx.fresh('fs_unknown', z3.BoolSort())):
                         raise PyExc(UFw, ())
                 return gen()
@@ -212,8 +234,12 @@ def make_runner(mode, shape=DEF_SHAPES[0], node='FunctionDef', kind='function', 
                 return None
             I.call_hooks['_autoforwards:CallListerVisitor.__init__'] = visitor_summary
 
+            env['yield_log'] = []
+            env['merge_args'] = None
+
             def merge_summary(interp_, clo, args, kwpairs):
                 # contract of merge (C15, discharged by contracts.merge): an upgraded signature or IncompatibleSignatures
+                env['merge_args'] = list(args)
                 if ctx.decide(ctx.fresh('merge_incompatible', z3.BoolSort())):
                     e = I.instantiate(IS, [args[0], ()], [])
                     raise I.make_exc(e)
@@ -292,6 +318,34 @@ def make_runner(mode, shape=DEF_SHAPES[0], node='FunctionDef', kind='function', 
                 r.outcome, r.value = 'return', None
             except PyExc as e:
                 r.outcome, r.exc = 'raise', e
+        elif mode == 'sphinx':
+            sx = I.module('sigtools.sphinxext')
+            obj = new_obj('documented')
+            parent = new_obj('parent_module', 'instance')
+            usig = mk_sig(I, ctx, 'u', (0, 1, 0, 0, 0), tracked=False).sig
+
+            def fetch(interp_, clo, args, kwpairs):
+                # a documentable object: its dotted name can be imported (AttributeError: handled by the hook itself)
+                may_raise(interp_, 'fetch_dotted_name', allowed=('AttributeError',))
+                return (parent, obj)
+            I.call_hooks['sphinxext:fetch_dotted_name'] = fetch
+
+            def sig_summary(interp_, clo, args, kwpairs):
+                may_raise(interp_, 'forged_signature', allowed=('TypeError', 'ValueError'))
+                return usig
+            I.call_hooks['_specifiers:forged_signature'] = sig_summary
+
+            def ev(interp_, name, args, kwpairs):
+                if name == 'eval':
+                    may_raise(interp_, 'eval')       # evaluating an annotation runs arbitrary code
+                    return world.install_externals.__globals__['SymVal'](sym.EVALIN(sym.to_mv(args[0]).val, args[1].func.t))
+                raise EngineLimit('external call %s' % name)
+            I.external_call = ev
+            env['in_sig'], env['in_ret'] = Opaque('sig argument'), Opaque('return_annotation argument')
+            harness.run_unit(I, sx.ns['process_signature'], [None, 'function', Opaque('dotted name'), obj, None, env['in_sig'], env['in_ret']], [], r)
+        elif mode == 'recursion':
+            env['rec_results'] = recursion_cases()
+            r.outcome, r.value = 'return', None
         elif mode == 'as_forged':
             spm = I.module('sigtools.specifiers')
             inst = new_obj('instance', 'instance')
@@ -358,9 +412,37 @@ def vcs(env, want):
                 out.append(VC(G_UP.full, [], z3.BoolVal(isinstance(r.value, Inst) and US in r.value._cls.mro), G_UP.props))
             if on(G_USED) and env.get('forger_returned') is not None and any(e[0] == 'external-call' and e[1] == 'forger' for e in ctx.events):
                 out.append(VC(G_USED.full, [], z3.BoolVal(r.value is env['forger_returned']), G_USED.props))
+            if on(G_PLAIN):
+                # which route produced the value: the forger's, the hint's / discovery's (the summary returns the very
+                # signature object it was handed), or plain retrieval
+                from_forger = env.get('forger_returned') is not None and r.value is env['forger_returned']
+                # (a discovery result may be post-processed - mask(…, 1) for bound methods - so any successful
+                # autoforwards_ast on the path counts as the discovery route)
+                from_discovery = r.value is env.get('hint_sig') or bool(env.get('af_ast_returned'))
+                if not from_forger and not from_discovery:
+                    ok = bool(env['plain_results']) and r.value is env['plain_results'][-1]
+                    out.append(VC(G_PLAIN.full, [], z3.BoolVal(ok), G_PLAIN.props))
     elif mode == 'af_ast':
         if r.outcome == 'raise' and on(A_ONLY):
             out.append(VC(A_ONLY.full + ':' + r.exc.typname, [], is_unknown_forwards(I, r.exc), A_ONLY.props))
+        if r.outcome == 'return' and on(A_MERGE):
+            ma_ = env['merge_args']
+            ok = ma_ is not None and len(ma_) == len(env['yield_log']) and all(a is b for a, b in zip(ma_, env['yield_log'])) and len(ma_) > 0
+            out.append(VC(A_MERGE.full, [], z3.BoolVal(bool(ok)), A_MERGE.props))
+    elif mode == 'sphinx':
+        if r.outcome == 'raise':
+            if on(S_TOTAL):
+                out.append(VC(S_TOTAL.full + ':' + r.exc.typname, [], z3.BoolVal(False), S_TOTAL.props))
+        elif on(S_STR):
+            v = r.value
+            ok = isinstance(v, tuple) and len(v) == 2 and ((v[0] is env['in_sig'] and v[1] is env['in_ret']) or all(isinstance(x, (str, Opaque)) for x in v))
+            out.append(VC(S_STR.full, [], z3.BoolVal(bool(ok)), S_STR.props))
+    elif mode == 'recursion':
+        if on(T_REC):
+            for name, ok, detail in env['rec_results']:
+                v = VC(T_REC.full + ':' + name, [], z3.BoolVal(ok), T_REC.props)
+                out.append(v)
+                env.setdefault('rec_detail', {})[v.name] = detail
     elif mode == 'fwd':
         calls = env['calls']
         if r.outcome == 'raise' and on(W_RAISE):
@@ -421,6 +503,10 @@ def replay(env, vc, model):
         elif e[0] == 'external-call':
             events.append('%s called' % e[1])
     r = env['r']
+    if env['mode'] == 'recursion':
+        d = env.get('rec_detail', {}).get(vc.name)
+        return dict(status='reproduced', op='retrieval:recursion (native run)', program='def self_forwarding(*args, **kwargs): return self_forwarding(*args, **kwargs)',
+                    violated=[['rt:cyclic_forwarding_graph_terminates', d]])
     rec = dict(status='no-replay', op='retrieval:' + env['mode'], objects=desc, external_events=events,
                outcome=(r.outcome if r.outcome != 'raise' else 'raise ' + r.exc.typname))
     try:
@@ -431,6 +517,35 @@ def replay(env, vc, model):
     except ImportError:
         pass
     return rec
+
+
+def recursion_cases():
+    """tier R: the REAL sigtools.signature on functions whose forwarding graph is cyclic"""
+    import inspect
+    from vf.concrete import real_sigtools
+    real_sigtools()
+    import sigtools
+    ns = {}
+    src = ('def self_forwarding(*args, **kwargs):\n    return self_forwarding(*args, **kwargs)\n'
+           'def ping(*args, **kwargs):\n    return pong(*args, **kwargs)\n'
+           'def pong(*args, **kwargs):\n    return ping(*args, **kwargs)\n')
+    import linecache
+    fname = '<vf-recursion>'
+    linecache.cache[fname] = (len(src), None, src.splitlines(True), fname)
+    exec(compile(src, fname, 'exec'), ns)
+    out = []
+    for name in ('self_forwarding', 'ping'):
+        f = ns[name]
+        try:
+            inspect.signature(f)
+            s = sigtools.signature(f)
+            out.append((name, True, 'sigtools.signature(%s) = %s' % (name, s)))
+        except RecursionError:
+            out.append((name, False, 'sigtools.signature(%s) raises RecursionError where inspect.signature succeeds: the recursion forged_signature -> autoforwards -> '
+                        'forward_signatures -> forged_signature(callee) follows the user\'s forwarding graph, which is cyclic, and nothing guards it' % name))
+        except Exception as e:
+            out.append((name, False, 'sigtools.signature(%s) raises %r' % (name, e)))
+    return out
 
 
 def _mb(model, t):
